@@ -126,7 +126,23 @@ def wrap_vector(kind, values, index_plan="default", name=None):
         return pd.Series(list(values), index=make_index(index_plan, n), name=name)
     if kind == "dataframe":
         return pd.DataFrame({(name if name is not None else "col"): list(values)}, index=make_index(index_plan, n))
+    if kind in ("series_categorical", "dataframe_categorical"):
+        # pandas category dtype with a category that never occurs (a level filtered out earlier in the user's pipeline)
+        ser = pd.Series(_categorical(values), index=make_index(index_plan, n), name=name)
+        return ser if kind == "series_categorical" else ser.to_frame(name if name is not None else "col")
     raise ValueError(kind)
+
+
+def _categorical(values):
+    vals = list(values)
+    cats = []
+    for v in vals:
+        if v not in cats:
+            cats.append(v)
+    extra = "zz_unused" if all(isinstance(c, str) for c in cats) else (max(cats) + 17 if all(isinstance(c, (int, float)) and not isinstance(c, bool) for c in cats) else None)
+    # categories in an order that is neither the order of appearance nor sorted
+    cats = cats[::-1] + ([extra] if extra is not None and extra not in cats else [])
+    return pd.Categorical(vals, categories=cats)
 
 
 PY_CASTS = {"int": int, "float": float, "bool": bool}
@@ -166,6 +182,8 @@ def wrap_features(kind, cols, names, index_plan="default"):
     n = len(cols[0])
     if kind == "dataframe":
         return pd.DataFrame({nm: list(c) for nm, c in zip(names, cols)}, index=make_index(index_plan, n)), list(names)
+    if kind == "dataframe_categorical":
+        return pd.DataFrame({nm: _categorical(c) for nm, c in zip(names, cols)}, index=make_index(index_plan, n)), list(names)
     if kind == "dict":
         return {nm: (list(c) if i % 2 == 0 else to_ndarray(c)) for i, (nm, c) in enumerate(zip(names, cols))}, list(names)
     if kind == "dict_series":
@@ -186,13 +204,16 @@ def wrap_features(kind, cols, names, index_plan="default"):
         return pd.Series(list(cols[0]), index=make_index(index_plan, n), name=names[0]), [names[0]]
     if kind == "series_noname":
         return pd.Series(list(cols[0]), index=make_index(index_plan, n)), None
+    if kind == "series_categorical":
+        return pd.Series(_categorical(cols[0]), index=make_index(index_plan, n), name=names[0]), [names[0]]
     raise ValueError(kind)
 
 
 def feature_kinds(n_cols):
     if n_cols == 1:
-        return ["list", "ndarray", "series", "series_noname", "dataframe", "dict", "ndarray2d", "dict_series"]
-    return ["dataframe", "dict", "ndarray2d", "dict_series"]
+        return ["list", "ndarray", "series", "series_noname", "dataframe", "dict", "ndarray2d", "dict_series", "series_categorical",
+                "dataframe_categorical"]
+    return ["dataframe", "dict", "ndarray2d", "dict_series", "dataframe_categorical"]
 
 
 # ---- weights -------------------------------------------------------------------------------------
